@@ -287,6 +287,30 @@ type TriDeepLater struct {
 	TriBox
 }
 
+// Depth-2 embedding: the flattened middle struct ENDS with an anonymous field that is not flattened (named, '-', non-struct),
+// and the outer struct goes on with fields of its own.
+type MidNamedLast struct {
+	A     int `json:"a"`
+	Inner `json:"inner"`
+}
+type OuterAfterMid struct {
+	MidNamedLast
+	Z string `json:"z"`
+}
+type MidDashLast struct {
+	B       int `json:"b"`
+	EmbBase `json:"-"`
+}
+type MidNonStructLast struct {
+	C int `json:"c"`
+	NamedInt
+}
+type OuterAfterMids struct {
+	MidDashLast
+	MidNonStructLast
+	Last bool `json:"last"`
+}
+
 // The same type several times.
 type Repeats struct {
 	A  Inner            `json:"a"`
@@ -482,7 +506,7 @@ var PlainData = []reflect.Type{
 	reflect.TypeFor[Scalars](), reflect.TypeFor[Tags](), reflect.TypeFor[Inner](), reflect.TypeFor[Pointers](), reflect.TypeFor[Containers](),
 	reflect.TypeFor[NamedKinds](), reflect.TypeFor[EmbByValue](), reflect.TypeFor[EmbByPointer](), reflect.TypeFor[EmbNested](), reflect.TypeFor[EmbUnexportedType](),
 	reflect.TypeFor[EmbTwo](), reflect.TypeFor[EmbShadowSame](), reflect.TypeFor[EmbDeep](), reflect.TypeFor[PtrThenVal](), reflect.TypeFor[ValThenPtr](), reflect.TypeFor[[]PtrThenVal](),
-	reflect.TypeFor[TriAmbiguous](), reflect.TypeFor[TriDeepLater](), reflect.TypeFor[[]TriAmbiguous](),
+	reflect.TypeFor[OuterAfterMid](), reflect.TypeFor[OuterAfterMids](), reflect.TypeFor[[]OuterAfterMid](), reflect.TypeFor[TriAmbiguous](), reflect.TypeFor[TriDeepLater](), reflect.TypeFor[[]TriAmbiguous](),
 	reflect.TypeFor[EmbNamedTag](), reflect.TypeFor[EmbNamedTagPtr](), reflect.TypeFor[EmbDashed](), reflect.TypeFor[EmbOptsOnly](), reflect.TypeFor[EmbNonStruct](), reflect.TypeFor[EmbNonStructPtr](),
 	reflect.TypeFor[EmbMap](), reflect.TypeFor[EmbUnexportedTagged](), reflect.TypeFor[EmbTaggedHoldsEmb](), reflect.TypeFor[EmbFlattenedHoldsTagged](), reflect.TypeFor[[]EmbNamedTag](), reflect.TypeFor[map[string]*EmbNonStruct](),
 	reflect.TypeFor[Empty](), reflect.TypeFor[OnlyOmitted](), reflect.TypeFor[HoldsEmpty](), reflect.TypeFor[Described](), reflect.TypeFor[struct{}](), reflect.TypeFor[map[string]struct{}](), reflect.TypeFor[[]Empty](),
